@@ -1,7 +1,8 @@
 ------------------------------ MODULE Totality ------------------------------
 (* The outcome contract of the specification parsers (C12): a value, or a non-empty list of
    errors; never a panic, never a hang; every span satisfies start <= end <= length of the text
-   and lies on character boundaries. *)
+   and lies on character boundaries, and the diagnostics formatter's rendering of every error
+   shows the error's message. *)
 EXTENDS Naturals, Integers, Sequences, FiniteSets, TLC, SequencesExt
 SpanOK(sp, len, bounds) == sp[1] <= sp[2] /\ sp[2] <= len /\ sp[1] \in bounds /\ sp[2] \in bounds
 ItemsOK(items, len, bounds) == \A i \in 1 .. Len(items) : \A j \in 1 .. Len(items[i].spans) : SpanOK(items[i].spans[j], len, bounds)
@@ -12,6 +13,8 @@ TotalityDevs(res, len, bnds) ==
     [] res.class = "err" ->
          (IF res.errors = <<>> THEN { <<"error outcome with an empty error list", 0>> } ELSE {})
          \cup (IF ItemsOK(res.errors, len, bounds) THEN {} ELSE { <<"error span outside the text / off a character boundary", res.errors>> })
+         \cup { <<"the rendering of an error does not show its message", res.errors[i]>> :
+                  i \in {i \in 1 .. Len(res.errors) : "shown" \in DOMAIN res.errors[i] /\ ~res.errors[i].shown} }
     [] OTHER -> (IF "warnings" \in DOMAIN res /\ ~ItemsOK(res.warnings, len, bounds)
                  THEN { <<"warning span outside the text / off a character boundary", res.warnings>> } ELSE {})
 =============================================================================
